@@ -96,9 +96,15 @@ def Node.name {B : Type} : Node B → Name
   | .file n _ _ => n
   | .dir n _ _ => n
 
+/-- Why a path could not be stat'ed / a directory not be listed, as far as the walk function distinguishes. -/
+inductive FsErr where
+  | notExist      -- `os.IsNotExist(err)`: ENOENT
+  | other         -- no permission, a parent that is not a directory, an I/O error, …
+deriving Repr, DecidableEq
+
 inductive VisitKind (B : Type) where
-  | lstatErr                                  -- walkFn(path, nil, *PathError): the path cannot be stat'ed
-  | dir (listErr : Bool)                      -- walkFn(path, info, err-of-ReadDir)
+  | lstatErr (e : FsErr)                      -- walkFn(path, nil, err-of-Lstat): the path cannot be stat'ed
+  | dir (listErr : Option FsErr)              -- walkFn(path, info, err-of-ReadDir)
   | file (size : Nat) (content : Option B)    -- walkFn(path, info, nil), !info.IsDir()
 deriving Repr, DecidableEq
 
@@ -118,7 +124,8 @@ mutual
 itself, then — for a directory that can be listed — its entries in the order `ReadDir` returned them. -/
 def Node.visits {B : Type} (path : Name) : Node B → List (Visit B)
   | .file n sz c => [⟨path, n, .file sz c⟩]
-  | .dir n readable es => ⟨path, n, .dir (!readable)⟩ :: (if readable then visitsList path es else [])
+  | .dir n readable es =>
+    ⟨path, n, .dir (if readable then none else some .other)⟩ :: (if readable then visitsList path es else [])
 def visitsList {B : Type} (parent : Name) : List (Node B) → List (Visit B)
   | [] => []
   | e :: es => e.visits (joinPath parent e.name) ++ visitsList parent es
@@ -126,12 +133,19 @@ end
 
 /-- What is at the root path. -/
 inductive Root (B : Type) where
-  | missing (name : Name)       -- Lstat fails (does not exist, a parent is not a directory, …)
+  | absent (name : Name) (e : FsErr)   -- Lstat fails: does not exist / a parent is a file or may not be searched
   | node (n : Node B)
 
 def Root.visits {B : Type} (root : Name) : Root B → List (Visit B)
-  | .missing n => [⟨root, n, .lstatErr⟩]
+  | .absent n e => [⟨root, n, .lstatErr e⟩]
   | .node n => n.visits root
+
+/-- The error the walk function is handed with a visit. -/
+def Visit.err {B : Type} (v : Visit B) : Option FsErr :=
+  match v.kind with
+  | .lstatErr e => some e
+  | .dir e => e
+  | .file _ _ => none
 
 /-- `filepath.Ext(name)` for a name without separators: from the last dot, empty if there is none. -/
 def ext (name : Name) : Name :=
@@ -153,14 +167,16 @@ def CbRes.isFail {B : Type} : CbRes B → Bool
   | .fail => true
   | _ => false
 
-/-- The walk function of `loadPath`, statement by statement: an error on the root path itself is swallowed
-(`rootErrSwallowed`: "check if the root directory exists"), any other error is returned; directories, names
-without the extension `.pem` and dot-files are passed over; so are files larger than `maxSize`; a file that
-cannot be read fails the load. -/
-def pathCallback {B : Type} (maxSize : Nat) (root : Name) (v : Visit B) : CbRes B :=
+/-- The walk function of `loadPath`, statement by statement: an error on the root path itself is passed over when
+the root does not exist ("a root directory which does not exist is an empty directory"; before `onlyNotExist`
+— the repair `e63514f` — *every* error on the root was, by the type assertion `err.(*os.PathError)`), any other error
+is returned; directories, names without the extension `.pem` and dot-files are passed over; so are files larger
+than `maxSize`; a file that cannot be read fails the load. -/
+def pathCallback {B : Type} (onlyNotExist : Bool) (maxSize : Nat) (root : Name) (v : Visit B) : CbRes B :=
   match v.kind with
-  | .lstatErr => if v.path = root then .skip else .fail
-  | .dir listErr => if listErr then (if v.path = root then .skip else .fail) else .skip
+  | .lstatErr e => if v.path = root && (!onlyNotExist || e == .notExist) then .skip else .fail
+  | .dir (some e) => if v.path = root && (!onlyNotExist || e == .notExist) then .skip else .fail
+  | .dir none => .skip
   | .file size content =>
     if ext v.name != sPem || hasDotPrefix v.name then .skip
     else if size > maxSize then .skip
@@ -168,18 +184,19 @@ def pathCallback {B : Type} (maxSize : Nat) (root : Name) (v : Visit B) : CbRes 
       | none => .fail
       | some b => .add v.path b
 
-def walkFold {B : Type} (maxSize : Nat) (root : Name) : List (Visit B) → PemMap B → Option (PemMap B)
+def walkFold {B : Type} (strict : Bool) (maxSize : Nat) (root : Name) : List (Visit B) → PemMap B → Option (PemMap B)
   | [], acc => some acc
   | v :: vs, acc =>
-    match pathCallback maxSize root v with
-    | .skip => walkFold maxSize root vs acc
+    match pathCallback strict maxSize root v with
+    | .skip => walkFold strict maxSize root vs acc
     | .fail => none
-    | .add k b => walkFold maxSize root vs ((k, b) :: acc)
+    | .add k b => walkFold strict maxSize root vs ((k, b) :: acc)
 
 /-- `loadPath(root)` given the invocations the tree at `root` gives rise to. -/
-def loadPath {B : Type} (maxSize : Nat) (root : Name) (visits : List (Visit B)) : LoadResult (Option (PemMap B)) :=
+def loadPath {B : Type} (strict : Bool) (maxSize : Nat) (root : Name) (visits : List (Visit B)) :
+    LoadResult (Option (PemMap B)) :=
   if root.isEmpty then .blocks none else
-  match walkFold maxSize root visits [] with
+  match walkFold strict maxSize root visits [] with
   | none => .err
   | some m => .blocks (some m)
 
@@ -212,8 +229,8 @@ structure Body where
 deriving Repr, DecidableEq
 
 /-- `loadCertificates` on what a loader returned (nil map: no certificates, no error), the published set being
-certificates without names (identity only). The map is iterated in canonical order; `loadCertificates_sorted`
-and the correspondence cover the other orders. -/
+certificates without names (identity only). The map is iterated in canonical order; every other iteration order
+gives the same list (`Props.C11Order.loadCertificates_order_irrelevant`). -/
 def mkFromMap (m : Option (PemMap Body)) : Option CertSet :=
   match m with
   | none => some []
